@@ -360,7 +360,7 @@ def bounded(run):
     cf = configs(run.tier)
     for n, L, ke, me in cf:
         for nt in ((1, 2, 5) if run.tier == 'quick' else (1, 2, 3, 5, 16)):
-            why = judge_kmu(n, L, ke, me, (0, 2, 4) if ncfg % 2 == 0 else (), nt, run.seed + ncfg)
+            why = judge_kmu(n, L, ke, me, ((0, 2, 4), (2, 0, 4), (), (4, 2, 0))[ncfg % 4], nt, run.seed + ncfg)
             nev += n ** 3
             ncfg += 1
             if why:
@@ -373,7 +373,7 @@ def bounded(run):
                 run.bounded_violation('bin_kppi vs brute-force count over the full mesh', dict(n1d=n, kedges=ke, pimax=pimax, Npi=npi), why)
                 return
     run.add_bounded('compiled bin_kmu / bin_kppi vs brute force over all n^3 modes', nev, ncfg,
-                    'mesh sizes 1..8 (12 thorough, odd and even) x 4 edge arrays (starting at/above 0, ending below/above Nyquist) x 3 mu binnings x poles (0,2,4)/none x threads; Hermitian random mesh values; configurations with a mode exactly on an edge are skipped (ties unconstrained)',
+                    'mesh sizes 1..8 (12 thorough, odd and even) x 4 edge arrays (starting at/above 0, ending below/above Nyquist) x 3 mu binnings x poles (0,2,4) / (2,0,4) / (4,2,0) / none x threads; Hermitian random mesh values; configurations with a mode exactly on an edge are skipped (ties unconstrained)',
                     [dict(n1d=cf[5][0], kedges=cf[5][2], muedges=cf[5][3])])
 
 
